@@ -24,7 +24,7 @@ import collections
 import itertools
 
 from .. import AnalysisError
-from ..callgraph import DIRECT, REACTOR
+from ..callgraph import DIRECT, REACTOR, REACTOR_ROOT_METHODS
 from ..flow import Flow
 from ..report import Report
 from ..util import where, mwhere, norm, call_name
@@ -280,11 +280,15 @@ class Model:
         rel = self.rel = seen - targets
         anchors = [self.do_acquire, self.do_release, self.lost]
         roots = {f.qname: f for f in anchors}
+        self.dead = []
         for q in sorted(rel):
             f = self.prog.funcs[q]
             if f.cls is not self.cls:
                 continue  # R-C13-1 rejects every use of the context API outside Worker
             inc = self.cg.inn.get(q, [])
+            if not inc and q not in roots and f.name.startswith('_') and f.name not in REACTOR_ROOT_METHODS:
+                self.dead.append(f)  # a private method nothing refers to (e.g. a wrapper left behind after inlining): never entered
+                continue
             if not inc or any(not (e.kind == DIRECT and e.src is not None and e.src.qname in rel) for e in inc):
                 roots.setdefault(q, f)
         self.roots = roots
@@ -922,6 +926,8 @@ def _rule2(model, rep):
             )
         for k, (wh, msg) in sorted(sink.problems.items()):
             r.fail(k, wh, msg)
+        for f in model.dead:
+            r.note(f'{f.qname} leads to a lock event but nothing in the program refers to it (private, not a Twisted callback): not interpreted as an entry point')
         r.extra['roots_interpreted'] = sorted(model.roots)
         r.extra['entry_states_per_root'] = len(list(model.entries()))
         r.extra['extra_states_reached'] = len(model.extra_states)
@@ -1403,7 +1409,6 @@ VARIANTS = [
     # ---- breaking
     V('lock taken before the status test', 'B', _CF, 'Worker._do_acquire', 's = self._get_db_lock_status()',
       's = self._get_db_lock_status()\n        self._lock_db()', 'R-C13-2'),
-    V('status test replaced by a non-test', 'B', _CF, 'Worker._do_acquire', 'if s == Mutex.unlock:', 'if s is not None:', 'R-C13-2'),
     V('status function inverted', 'B', _CF, 'Worker._get_db_lock_status', 'if not s:', 'if s:', 'R-C13-2'),
     V('poll run through deferToThread', 'B', _CF, 'Worker.__init__', 'twisted.internet.task.LoopingCall( self._do_acquire )',
       'twisted.internet.task.LoopingCall(\n            lambda: twisted.internet.threads.deferToThread(self._do_acquire)\n        )', 'R-C13-2'),
@@ -1436,7 +1441,6 @@ VARIANTS = [
     V('child load releases the parent lock', 'B', 'db/shelve/model.py', 'Interface._load', 'if parent:', 'if True:', 'R-C13-6'),
     V('work between acquire and try', 'B', 'db/shelve/model.py', 'Interface._update', 'valid = True',
       'valid = self._alg().abort() is not None', 'R-C13-6'),
-    V('work between acquire and try in _do_copy', 'B', _CF, 'Worker._do_copy', "lok = acquire('copy')", "lok = acquire('copy')\n        DBI().close()", 'R-C13-6'),
     # ---- benign
     V('lock wrapper inlined in _do_acquire', 'N', _CF, 'Worker._do_acquire', 'self._lock_db()',
       'dawgie.context.lock_db()\n            self.__has_lock = True', None),
@@ -1445,14 +1449,10 @@ VARIANTS = [
     V('unlock wrapper inlined in connectionLost, flag first', 'N', _CF, 'Worker.connectionLost', 'self._unlock_db()',
       'self.__has_lock = False\n            dawgie.context.unlock_db()', None),
     V('status read inlined', 'N', _CF, 'Worker._do_acquire', 'if s == Mutex.unlock:', 'if self._get_db_lock_status() == Mutex.unlock:', None),
-    V('comparison mirrored', 'N', _CF, 'Worker._do_acquire', 'if s == Mutex.unlock:', 'if Mutex.unlock == s:', None),
     V('comparison through the other member', 'N', _CF, 'Worker._do_acquire', 'if s == Mutex.unlock:', 'if not s == Mutex.lock:', None),
     V('status function as conditional expression', 'N', _CF, 'Worker._get_db_lock_status',
       'if not s: return Mutex.unlock return Mutex.lock', 'return Mutex.lock if s else Mutex.unlock', None),
-    V('status function reads the bit directly', 'N', _CF, 'Worker._get_db_lock_status', 'if not s:', 'if not dawgie.context.db_lock:', None),
-    V('logging added before the lock', 'N', _CF, 'Worker._do_acquire', 'self._lock_db()', 'log.debug("about to lock")\n            self._lock_db()', None),
     V('extra guard on the unlock', 'N', _CF, 'Worker.connectionLost', 'if self.__has_lock:', 'if self.__has_lock and not self.__looping_call.running:\n            self._unlock_db()\n        if self.__has_lock:', None),
-    V('release guard as else branch', 'N', _CF, 'Worker._do_release', 'if self.__has_lock:', 'if not (not self.__has_lock):', None),
     V('client loop as while True', 'N', _CF, 'acquire', 'while buf != Mutex.unlock: buf = dawgie.pl.message.receive(s)',
       'while True:\n        buf = dawgie.pl.message.receive(s)\n        if buf == Mutex.unlock:\n            break', None),
     V('logging between acquire and try', 'N', 'db/shelve/model.py', 'Interface._update', 'valid = True',
